@@ -36,6 +36,15 @@ CHECKS = {
              "objects for every lattice point and must agree with the model; public calls are executed end to end "
              "and every nested resolution event is validated against the model by spec/Trace_Dispatch.tla.",
         design="5/C04", technique="TLC over extracted rule table (exhaustive lattice) + resolver trace validation"),
+    "C05": dict(
+        text="TLC enumerates trees whose leaves carry every declaration that TLC has verified true of the exact matrix, "
+             "computes the exact set of true annotations of each composite (IsHermitian / IsPSD by principal minors / "
+             "IsStiefel / IsUnitary over Gaussian rationals) and evaluates the transcribed inference rules "
+             "(Annot.tla!Infer) against it; replay requires the real .annotations to be a subset of TLC's true set, "
+             "checks the declaration wrapper (same action, wrapped operator untouched) and reports model drift; "
+             "annotations attached to routine outputs (lanczos, arnoldi, eig, svd, matrix functions, inv) are tested "
+             "numerically on the returned matrices.",
+        design="5/C05", technique="TLC state enumeration of MC_Ops + exact annotation oracle + spec-to-code replay"),
     "C20": dict(
         text="TLC resolves every index form (ints, slices incl. negative/strided/empty, integer arrays, lists) with the "
              "transcribed Python slice.indices / negative-wrap semantics (PyIndex.tla) on every operator tree and "
